@@ -372,26 +372,42 @@ Section Oracles.
 
   Definition hex_even (s : str) : bool := forallb is_hex_char s && Nat.even (length s).
 
-  (** securesystemslib.gpg.functions.verify_signature(signature, key, bytes) for a gpg-shaped key *)
+  (** securesystemslib.gpg.functions.verify_signature(signature, key, bytes) for a gpg-shaped key.
+      GPG_SIGNATURE_SCHEMA.check_match comes first (hex keyid / signature / other_headers, optional hex
+      short_keyid: FormatError); then key selection and expiry; the signed digest covers other_headers,
+      so the oracle is asked about signature and other_headers together (joined by '|'); an odd number
+      of hex digits in other_headers makes unhexlify raise (binascii.Error, a ValueError) *)
+  Definition S_short_keyid : str := [115;104;111;114;116;95;107;101;121;105;100]%N.
+  Definition gpg_sig_schema_ok (sig : json) : bool :=
+    match jget S_keyid sig, jget S_signature sig, jget S_other_headers sig with
+    | Some (JStr k), Some (JStr v), Some (JStr oh) =>
+        is_hex k && is_hex v && is_hex oh &&
+        match jget S_short_keyid sig with
+        | None => true
+        | Some (JStr sk) => is_hex sk
+        | Some _ => false
+        end
+    | _, _, _ => false
+    end.
+  (** unhexlify is case-insensitive: the oracle sees lower-case hex *)
+  Definition gpg_sig_value (sval oh : str) : str := lower sval ++ 124%N :: lower oh.
+
   Definition gpg_verify (sig key : json) (msg : list N) : res bool :=
-    match jstr_of (jget S_keyid sig), jstr_of (jget S_keyid key),
-          (* an OpenPGP signature covers its hashed headers too (hash_object(other_headers, content)):
-             the oracle is asked about the pair "signature:other_headers" *)
-          match jstr_of (jget S_signature sig), jstr_of (jget S_other_headers sig) with
-          | Some sv, Some hdr => Some (sv ++ 58%N :: hdr)
-          | _, _ => None
-          end with
+    match jstr_of (jget S_keyid sig), jstr_of (jget S_keyid key), jstr_of (jget S_signature sig) with
     | Some skid, Some mkid, Some sval =>
+        if negb (gpg_sig_schema_ok sig) then Err EFormat else
+        let oh := match jget S_other_headers sig with Some (JStr o) => o | _ => [] end in
         let sel := match jget S_subkeys key with
                    | Some (JDict subs) => match lookup skid subs with Some k => (skid, k) | None => (mkid, key) end
                    | _ => (mkid, key)
                    end in
         let vk := snd sel in
+        let check := if Nat.even (length oh) then Ok (sig_ok (fst sel) msg (gpg_sig_value sval oh)) else Err EValueError in
         match jget S_creation_time vk, jget S_validity_period vk with
         | Some (JInt c), Some (JInt v) =>
             if (negb (Z.eqb c 0) && negb (Z.eqb v 0) && Z.ltb (c + v) now_s)%bool then Err EKeyExpired
-            else Ok (sig_ok (fst sel) msg sval)
-        | _, _ => Ok (sig_ok (fst sel) msg sval)
+            else check
+        | _, _ => check
         end
     | _, _, _ => Err EUnmodelled
     end.
